@@ -473,6 +473,16 @@ theorem copy_eq_self {src tgt : Mgr} (hsrc : Inv src) (ht : Inv tgt) (he : Ext s
   have hs := copy_self hsrc ht he h.spos h.slt
   exact (struct_eq_iff ht h.pos h.lt hs.pos hs.lt).mp (by rw [h.eq, hs.eq])
 
+theorem arrayCheck_none {s : Mgr} {it : Ty} {d : Nid} : ∀ {l : List (Nid × Nid)},
+    (∀ kv ∈ l, s.isConstant kv.1 = true) → (∀ kv ∈ l, kv.2 ≠ d) → arrayCheck s it d l = none
+  | [], _, _ => rfl
+  | (k, v) :: t, hc, hd => by
+    have h1 := hc (k, v) (by simp)
+    have h2 := hd (k, v) (by simp)
+    simp only at h1 h2
+    simp only [arrayCheck, h1, Bool.not_true, Bool.false_eq_true, if_false, h2, false_and]
+    exact arrayCheck_none (fun x hx => hc x (List.mem_cons_of_mem _ hx)) (fun x hx => hd x (List.mem_cons_of_mem _ hx))
+
 theorem mem_flattenPairs_key : ∀ {ps : List (Nid × Nid)} {kv : Nid × Nid}, kv ∈ ps → kv.1 ∈ flattenPairs ps
   | (k, v) :: t, kv, h => by
     simp only [flattenPairs, List.mem_cons]
@@ -513,8 +523,7 @@ theorem recSpec_array_same {src : Mgr} (hsrc : Inv src) (addr : Nid → Nat) (it
     | ok u =>
       simp only at hrun
       have he1 : Ext src t1 := he.trans h1.ext
-      have hall : (ps.all fun kv => t1.isConstant kv.1) = true := by
-        rw [List.all_eq_true]
+      have hall : ∀ kv ∈ ps, t1.isConstant kv.1 = true := by
         intro kv hkv
         have hmem : kv.1 ∈ (Content.mk NT.ARRAY_VALUE (d :: flattenPairs ps) (.ty it)).ids := by
           simp only [Content.ids, Payload.ids, List.append_nil, List.mem_cons]
@@ -525,7 +534,7 @@ theorem recSpec_array_same {src : Mgr} (hsrc : Inv src) (addr : Nid → Nat) (it
         exact hconst kv hkv
       have hrun' : (create ⟨NT.ARRAY_VALUE, d :: flattenPairs ps, .ty it⟩).run t1 = (r, tgt') := by
         rw [← hrun]
-        simp only [mkArray, Prog.run, hall, if_true, arrayAssignments_id hsort hnd]
+        simp only [mkArray, Prog.run, sortByAddr_sorted hsort, arrayCheck_none hall hnd, arrayAssignments_id hsort hnd]
       rw [create_run, createNode_existing h1.inv (he1.sub _ hc)] at hrun'
       simp only [Prod.mk.injEq] at hrun'
       obtain ⟨rfl, rfl⟩ := hrun'
